@@ -37,6 +37,21 @@ def variants(case, sb, g, out, drv, key, thorough):
     # (b) the whole input tree moved elsewhere (same directory name)
     r = T.run_real(sb.dir, case, variant='moved', loc=os.path.join('+else+', '+where+', '+q9+'))
     out.traces_validated += 1; differs(r, 'moving the input tree')
+    # (b') ... or reached through a symbolic link on the way: the directory that holds the input is a link to where the tree really lies.
+    # With input.follow_symlinks on (links INSIDE the tree are documented) the location still is not an input of the output
+    lbase = os.path.join(sb.dir, '+zq9_linked+'); os.makedirs(os.path.join(lbase, '+store+'), exist_ok=True)
+    if not os.path.lexists(os.path.join(lbase, '+mnt+')): os.symlink('+store+', os.path.join(lbase, '+mnt+'))
+    c0 = copy.deepcopy(case)
+    if inp.get('spelled') in ('dot', 'updir'): c0['inputs'][0]['spelled'] = 'abs'      # '.' is resolved through getcwd(), which names the link's target: absolute patterns ({INP}/...) would then speak of another path (K7)
+    if inp['kind'] == 'dir' and g.random() < 0.5: c0['settings']['follow'] = True; c0['settings']['recursive'] = True
+    if c0['settings'] != case['settings'] or c0['inputs'][0].get('spelled') != inp.get('spelled'):
+        rb = T.run_real(sb.dir, c0, variant='linkedbase'); rl = T.run_real(sb.dir, c0, variant='linked', loc='+mnt+'); out.traces_validated += 2
+        if rl['files'] != rb['files'] or rl['status'] != rb['status']:
+            d_ = sorted(set(rl['files']) ^ set(rb['files'])) or [q for q in rb['files'] if rb['files'][q] != rl['files'].get(q)]
+            vios.append(dict(kind='generated files changed by placing the input tree below a symbolic link (input.follow_symlinks on)', paths=d_[:5]))
+    elif inp.get('spelled') not in ('dot', 'updir'):
+        r = T.run_real(sb.dir, case, variant='linked', loc='+mnt+'); out.traces_validated += 1
+        differs(r, 'placing the input tree below a symbolic link')
     # (c) other listing orders
     if inp['kind'] == 'dir':
         for k in range(2 if not thorough else 4):
